@@ -45,11 +45,15 @@ Section NoPanic.
   Proof.
     induction keys as [|k keys IH]; simpl; [discriminate|].
     destruct (key_field sfs k) as [[fi ks]|]; [|discriminate].
-    destruct (field_get (f_go fi) fs) as [t|].
-    - destruct t; try (destruct ks; try discriminate; destruct t; try discriminate; apply bind_no_panic; auto; discriminate);
-        try (destruct ks; try discriminate; match goal with t0 : ytype |- _ => destruct t0 end; try discriminate; apply bind_no_panic; auto; discriminate).
-      apply bind_no_panic; auto; discriminate.
-    - destruct ks; try discriminate. destruct t; try discriminate; apply bind_no_panic; auto; discriminate.
+    assert (Hfallback : match ks with
+                        | SLeaf kt _ => match enum_key_type kt with
+                                        | Some ty => bind (entry_key sfs keys fs) (fun r => Ok (VEnum ty 0 :: r))
+                                        | None => Err end
+                        | _ => Err end <> Panic).
+    { destruct ks; try discriminate. destruct (enum_key_type t); [|discriminate].
+      apply bind_no_panic; auto; discriminate. }
+    destruct (field_get (f_go fi) fs) as [t|]; [|exact Hfallback].
+    destruct t; try exact Hfallback. apply bind_no_panic; auto; discriminate.
   Qed.
 
   Lemma dec_leaflist_no_panic t l : dec_leaflist env fo t l <> Panic.
